@@ -52,7 +52,12 @@ fn main() {
             }
             ["netprobe", dir] => batch::netprobe(dir),
             ["batch", dir, seed, n] => match (seed.parse(), n.parse()) {
-                (Ok(seed), Ok(n)) => batch::run(dir, seed, n),
+                (Ok(seed), Ok(n)) => batch::run(dir, seed, n, 8),
+                _ => "bad-op".to_string(),
+            },
+            // the same with a requested ring size (the kernel rounds it up to a power of two)
+            ["batch", dir, seed, n, entries] => match (seed.parse(), n.parse(), entries.parse::<usize>()) {
+                (Ok(seed), Ok(n), Ok(e)) if (1..=32768).contains(&e) => batch::run(dir, seed, n, e),
                 _ => "bad-op".to_string(),
             },
             _ => "bad-op".to_string(),
